@@ -1,17 +1,24 @@
-"""C06 - signed distance fields report true distance, nearest point and normal."""
+"""C06 - signed distance fields report true distance, nearest point and normal.
+
+Stage "voxel" (harness c07-voxel, judge spec/geom/VoxelJudge.tla): MeshToSDF on voxel worlds; derived fields on the
+same exact oracle: ColliderToSDF (bisection: judged to its bisection resolution d * 2^-iterations + 2^-(iterations-1)),
+and on extrusions (a pixel set times a z range, plan items extall / ext) ProfileSDF(MeshToSDF), ProfilePointSDF(MeshToSDF)
+and ProfileSDF(model2d.ColliderToSDF) over the 2-D outline of the pixel set.  Stage "prims": see c06_prims."""
 import solids
 
 
 def run(ctx):
     quick = ctx.tier == "quick"
-    ctx.rule = ("voxel worlds (every non-empty subset of a 2x2x2 grid, seeded larger ones) as mesh SDFs, probed on the "
-                "half-integer grid: sign, exact squared distance, nearest point in the tie set, face normal; non-trivial "
-                "= every record")
+    ctx.rule = ("voxel worlds (every non-empty subset of a 2x2x2 grid, seeded larger ones) as mesh SDFs and collider-derived "
+                "SDFs, extrusions of pixel sets as profile SDFs, probed on the half-integer grid: sign, exact squared "
+                "distance, nearest point in the tie set, face normal; non-trivial = every record")
     ctx.assumptions = ["distances are compared squared (exact integers in half units)",
-                       "where several faces are equally near, any of them is admissible", "curved primitives: see level_note"]
+                       "where several faces are equally near, any of them is admissible", "curved primitives: see level_note",
+                       "ColliderToSDF is judged to its bisection resolution only"]
     ctx.build_harness()
     plan = "all:2,2,2;rand:3,3,2:%d;rand:4,3,3:%d" % ((40, 10) if quick else (600, 150))
-    solids.judge_stage(ctx, "voxel", ["c07-voxel", "kinds=sdf", "plan=" + plan, "sdf=%d" % (60 if quick else 150)],
+    plan += ";extall:2,2,2;ext:3,3,2:%d;ext:4,3,3:%d" % ((25, 6) if quick else (300, 80))
+    solids.judge_stage(ctx, "voxel", ["c07-voxel", "kinds=sdf", "derived=1", "plan=" + plan, "sdf=%d" % (60 if quick else 150)],
                        {"panic", "sdf-sign", "sdf-dist", "sdf-point", "sdf-normal"}, judge="geom/VoxelJudge", timeout=3000)
     import c06_prims
     c06_prims.run(ctx)
